@@ -120,10 +120,87 @@ Fixpoint labels_ok (st0 : pstore) (todo : list entry) (ls : list label) : Prop :
   | LEnv st' :: rest => env_ok st0 todo st' /\ labels_ok st0 todo rest
   end.
 
+(* ---------- several ranges of one GetObject: readers sharing one read transaction ----------
+   database.WithTxReadClosers (SQL part stores): the transaction lives until EVERY returned reader has been closed (only
+   the first Close of a reader counts); a consumer may drain and close the ranges one after another, close without
+   draining, never close, close twice.  Tx-free stores: the readers are independent. *)
+Record msys := {
+  ms_mode : smode; ms_store : pstore; ms_snap : pstore;
+  ms_rds : list reader; ms_closed : list bool;
+  ms_tx : bool                      (* the read transaction is still open *)
+}.
+Inductive mlabel :=
+  | MRead (i n : nat)               (* the consumer reads up to n bytes from range reader i *)
+  | MClose (i : nat)                (* ... closes range reader i (possibly again) *)
+  | MEnv (st' : pstore).            (* overwrite / delete / GC / outbox flush: the visible store becomes st' *)
+
+Fixpoint set_nth {A} (l : list A) (i : nat) (x : A) : list A :=
+  match l, i with
+  | [], _ => []
+  | _ :: r, O => x :: r
+  | y :: r, S i' => y :: set_nth r i' x
+  end.
+Definition all_true (l : list bool) : bool := forallb (fun b => b) l.
+
+Definition msys_step (s : msys) (l : mlabel) : msys * option outcome :=
+  match l with
+  | MRead i n =>
+      match nth_error (ms_rds s) i, nth_error (ms_closed s) i with
+      | Some r, Some false =>
+          let lookup := match ms_mode s with
+                        | TxFree => ps_get (ms_store s)
+                        | Snapshot => if ms_tx s then ps_get (ms_snap s) else (fun _ => None)   (* sql.ErrTxDone *)
+                        end in
+          let '(r', o) := reader_read lookup n r in
+          ({| ms_mode := ms_mode s; ms_store := ms_store s; ms_snap := ms_snap s; ms_rds := set_nth (ms_rds s) i r';
+              ms_closed := ms_closed s; ms_tx := ms_tx s |}, Some o)
+      | Some _, Some true => (s, Some OEof)        (* lazyPartSequenceReadCloser: closed => io.EOF *)
+      | _, _ => (s, None)
+      end
+  | MClose i =>
+      match nth_error (ms_closed s) i with
+      | Some false =>
+          let cl := set_nth (ms_closed s) i true in
+          ({| ms_mode := ms_mode s; ms_store := ms_store s; ms_snap := ms_snap s; ms_rds := ms_rds s;
+              ms_closed := cl; ms_tx := ms_tx s && negb (all_true cl) |}, None)
+      | _ => (s, None)                             (* a repeated Close does not count *)
+      end
+  | MEnv st' => ({| ms_mode := ms_mode s; ms_store := st'; ms_snap := ms_snap s; ms_rds := ms_rds s;
+                    ms_closed := ms_closed s; ms_tx := ms_tx s |}, None)
+  end.
+Fixpoint msys_run (s : msys) (ls : list mlabel) : msys * list outcome :=
+  match ls with
+  | [] => (s, [])
+  | l :: rest => let '(s1, o) := msys_step s l in
+                 let '(s2, os) := msys_run s1 rest in
+                 (s2, match o with Some x => x :: os | None => os end)
+  end.
+Definition mstart (m : smode) (st : pstore) (todos : list (list entry)) : msys :=
+  {| ms_mode := m; ms_store := st; ms_snap := st; ms_rds := map mk_reader todos;
+     ms_closed := map (fun _ => false) todos; ms_tx := negb (is_nil todos) |}.
+Fixpoint mlabels_ok (st0 : pstore) (todo : list entry) (ls : list mlabel) : Prop :=
+  match ls with
+  | [] => True
+  | MRead _ n :: rest => (0 < n) /\ mlabels_ok st0 todo rest
+  | MClose _ :: rest => mlabels_ok st0 todo rest
+  | MEnv st' :: rest => env_ok st0 todo st' /\ mlabels_ok st0 todo rest
+  end.
+
+(* ---------- the outbox part store over a tx-free inner store ----------
+   GetPart looks at the LAST pending outbox entry of the part: a pending DeletePart answers ErrPartNotFound although the
+   inner store still holds the file; no pending entry: the inner store decides.  (Pending PutPart entries only exist
+   for fresh part ids.)  What a reader can see: *)
+Definition ob_visible (inner : pstore) (pending_delete : list N) : pstore :=
+  filter (fun x => negb (existsb (N.eqb (fst x)) pending_delete)) inner.
+
 (* ---------- case lines ----------
    <mode fs|sql> <versioned 0|1> <part contents, comma separated hex> <gstart> <gend> <steps, comma separated>
    steps: r<n> read n bytes | o overwrite the key (unversioned: all old parts unlinked) | d delete the key | x<i> part i removed (GC)
-   output: one token per read (hex bytes | EOF | ERR) and a final token total:<hex of everything delivered> *)
+   output: one token per read (hex bytes | EOF | ERR) and a final token total:<hex of everything delivered>
+   modes: fs (filesystem, tx-free) | ob (outbox over filesystem with the worker parked: deletes stay pending, tx-free) | sql.
+   Multi-range lines: <mode> <versioned> <parts> M <s1-e1;s2-e2;...> <steps> with steps r<i>.<n> (read n bytes from range
+   reader i), c<i> (close range reader i), o, d, x<i>, w (the outbox worker runs: pending deletes reach the inner store);
+   output: one token per read and a final token per range  t<i>:<hex delivered by reader i> *)
 Inductive cstep := CRead (n : nat) | COver | CDel | CGc (i : nat).
 Definition parse_cstep (t : bytes) : option cstep :=
   match t with
@@ -152,10 +229,68 @@ Fixpoint run_csteps (versioned : bool) (st0 : pstore) (s : sys) (cs : list cstep
 Definition show_outcome (o : outcome) : bytes :=
   match o with OBytes b => tok_bytes b | OEof => B"EOF" | OErr => B"ERR" end.
 
+Inductive mstep := MSRead (i n : nat) | MSClose (i : nat) | MSOver | MSDel | MSGc (i : nat) | MSWorker.
+Definition parse_mstep (t : bytes) : option mstep :=
+  match t with
+  | c :: r =>
+      if beqb c "r"%byte then
+        match split_on "."%byte r with
+        | [a; n] => match parse_nat a, parse_nat n with Some i, Some (S k) => Some (MSRead i (S k)) | _, _ => None end
+        | _ => None
+        end
+      else if beqb c "c"%byte then option_map MSClose (parse_nat r)
+      else if beqb c "x"%byte then option_map MSGc (parse_nat r)
+      else if bytes_eqb t B"o" then Some MSOver
+      else if bytes_eqb t B"d" then Some MSDel
+      else if bytes_eqb t B"w" then Some MSWorker else None
+  | [] => None
+  end.
+Definition mstep_label (versioned : bool) (st0 cur : pstore) (c : mstep) : mlabel :=
+  match c with
+  | MSRead i n => MRead i n
+  | MSClose i => MClose i
+  | MSOver | MSDel => if versioned then MEnv cur else MEnv (filter (fun x => negb (existsb (fun y => N.eqb (fst y) (fst x)) st0)) cur)
+  | MSGc i => match nth_error st0 i with Some (pid, _) => MEnv (ps_del cur pid) | None => MEnv cur end
+  | MSWorker => MEnv cur
+  end.
+Fixpoint run_msteps (versioned : bool) (st0 : pstore) (s : msys) (cs : list mstep) : msys * list outcome :=
+  match cs with
+  | [] => (s, [])
+  | c :: rest => let '(s1, o) := msys_step s (mstep_label versioned st0 (ms_store s) c) in
+                 let '(s2, os) := run_msteps versioned st0 s1 rest in
+                 (s2, match o with Some x => x :: os | None => os end)
+  end.
+Definition parse_range (t : bytes) : option (nat * nat) :=
+  match split_on "-"%byte t with
+  | [a; e] => match parse_nat a, parse_nat e with Some x, Some y => Some (x, y) | _, _ => None end
+  | _ => None
+  end.
+Fixpoint show_totals (i : nat) (rs : list reader) : list bytes :=
+  match rs with
+  | [] => []
+  | r :: rest => ("t"%byte :: show_nat i ++ ":"%byte :: tok_bytes (r_out r)) :: show_totals (S i) rest
+  end.
+Definition parse_mode (m : bytes) : option smode :=
+  if bytes_eqb m B"fs" then Some TxFree else if bytes_eqb m B"ob" then Some TxFree
+  else if bytes_eqb m B"sql" then Some Snapshot else None.
+
 Definition run_line (l : bytes) : bytes :=
   match tokens l with
-  | [m; v; ps; gs; ge; steps] =>
-      do mode <- (if bytes_eqb m B"fs" then Some TxFree else if bytes_eqb m B"sql" then Some Snapshot else None);
+  | [m; v; ps; mm; rgs; steps] =>
+    if bytes_eqb mm B"M" then
+      do mode <- parse_mode m;
+      do ver <- parse_bool v;
+      do contents <- untok_list ps;
+      do ranges <- mapM parse_range (split_on ";"%byte rgs);
+      do cs <- mapM parse_mstep (split_on ","%byte steps);
+      let st0 := number_parts 1 contents in
+      let sizes := map (fun x => (fst x, length (snd x))) st0 in
+      let todos := map (fun r => plan_range sizes 0 (fst r) (snd r)) ranges in
+      let '(s', os) := run_msteps ver st0 (mstart mode st0 todos) cs in
+      unwords (map show_outcome os ++ show_totals 0 (ms_rds s'))
+    else
+      let gs := mm in let ge := rgs in
+      do mode <- parse_mode m;
       do ver <- parse_bool v;
       do contents <- untok_list ps;
       do gstart <- parse_nat gs;
